@@ -5,7 +5,7 @@ from ..expr import access_path, path_str, reaching_defs, norm_cond, origins, lea
 from ..linear import linear, relation, fmt, rel_str
 from ..symb import eval3
 from ..charclass import byteset, describe, CTYPE
-from .common import strip_casts, short, comparison, member_funcs
+from .common import strip_casts, short, comparison, member_funcs, gated_by, after_result
 
 UNITS = []
 DRIVERS = ['propagators.cc']
@@ -78,6 +78,18 @@ def _valid_edge(name, want, var_id=None):
     return pred
 
 
+def _validator(name, var_id=None):
+    """call predicate: a call of validator `name` (with var_id: applied to that very variable)"""
+    def pred(ff, cn):
+        if not strip_targs(cn.get('c', '')).endswith(name):
+            return False
+        if var_id is not None and not any(ff.nodes[j]['k'] == 'ref' and ff.nodes[j].get('id') == var_id
+                                          for a_ in cn.get('args', []) if a_ is not None and a_ >= 0 for j in ff.subtree(a_)):
+            return False
+        return True
+    return pred
+
+
 def rule_r2_validated_is_stored(ck, prog, cls='trace::TraceState', rule='C14.R2', names=('Set', 'FromHeader')):
     """what is stored is what was validated: every AddEntry(k, v) of a caller-supplied or parsed member is behind IsValidKey applied
     to that very k and IsValidValue applied to that very v"""
@@ -94,9 +106,9 @@ def rule_r2_validated_is_stored(ck, prog, cls='trace::TraceState', rule='C14.R2'
             k, v = the_var(p.n['args'][0]), the_var(p.n['args'][1])
             if k['k'] != 'ref' or v['k'] != 'ref':
                 continue
-            if not g.must_pass_edge(p, _valid_edge('IsValidKey', True, k['id'])):
+            if not gated_by(g, [p], _validator('IsValidKey', k['id']))[0]:
                 bad = (p, 'IsValidKey', k['name'])
-            elif not g.must_pass_edge(p, _valid_edge('IsValidValue', True, v['id'])):
+            elif not gated_by(g, [p], _validator('IsValidValue', v['id']))[0]:
                 bad = (p, 'IsValidValue', v['name'])
             else:
                 n_ok += 1
@@ -112,13 +124,13 @@ def rule_r2(ck, prog, cls='trace::TraceState', rule='C14.R2'):
         g = Graph(prog, f, inline=None, sync_lambdas=True)
         news = [p for p in g.points if p.n is not None and p.n['k'] == 'new' and p.ctx is g.root_ctx]
         for gate in gates:
-            ok = bool(news) and all(g.must_pass_edge(p, _valid_edge(gate, True)) for p in news)
+            ok = bool(news) and gated_by(g, news, _validator(gate))[0]
             ck.verdict(ok, rule, f, '%s:%s-gate' % (name, gate), news[0].n if news else None, 'construction behind %s' % gate if ok else
                        '%s can build a new state without %s having accepted its argument: invalid members enter the list' % (name, gate))
             # the rejecting edge returns the default state
             rets = [r for r in g.returns() if r.ctx is g.root_ctx]
             dflt = [r for r in rets if any(f.nodes[i]['k'] == 'call' and strip_targs(f.nodes[i].get('c', '')).endswith('TraceState::GetDefault') for i in f.subtree(r.n['e']))]
-            ok = bool(dflt) and g.exit.id not in g.reachable_from(g.entry, avoid=dflt, avoid_edges=_valid_edge(gate, True))
+            ok = bool(dflt) and after_result(g, _validator(gate), False, dflt)[0]
             ck.verdict(ok, rule, f, '%s:%s-reject-returns-default' % (name, gate), dflt[0].n if dflt else None, 'invalid => default state' if ok else
                        'an argument rejected by %s does not lead to the default (empty) state' % gate)
     f = prog.function(cls + '::FromHeader')
@@ -139,18 +151,13 @@ def rule_r2(ck, prog, cls='trace::TraceState', rule='C14.R2'):
     ok = bool(news) and all(g.must_pass_edge(p, count_ok) for p in news)
     ck.verdict(ok, rule, f, 'FromHeader:at-most-32', news[0].n if news else None, 'state built only for at most 32 tokens' if ok else 'a header with more than 32 members is not rejected up front')
     adds = g.calls('KeyValueProperties::AddEntry')
-    ok = bool(adds) and all(g.must_pass_edge(p, _valid_edge('IsValidKey', True)) and g.must_pass_edge(p, _valid_edge('IsValidValue', True)) for p in adds)
+    ok = bool(adds) and gated_by(g, adds, _validator('IsValidKey'))[0] and gated_by(g, adds, _validator('IsValidValue'))[0]
     ck.verdict(ok, rule, f, 'FromHeader:members-validated', adds[0].n if adds else None, 'every member added behind IsValidKey and IsValidValue' if ok else
                'a parsed member is added without both validators having accepted it')
     resets = [p for p in g.points if p.n is not None and p.n['k'] == 'call' and strip_targs(p.n.get('c', '')).rsplit('::', 1)[-1] == 'reset']
     # on the invalid edge the partial state is discarded: from the false edge of a validator, reset or default return before exit
     dflt = [r for r in g.returns() if any(f.nodes[i]['k'] == 'call' and strip_targs(f.nodes[i].get('c', '')).endswith('TraceState::GetDefault') for i in f.subtree(r.n['e']))]
-    bad_starts = []
-    for p in g.points:
-        for (q, lab) in p.succ:
-            if _valid_edge('IsValidKey', False)(p, q, lab) or _valid_edge('IsValidValue', False)(p, q, lab):
-                bad_starts.append(q)
-    ok = bool(bad_starts) and all(g.exit.id not in g.reachable_from(q, avoid=resets + dflt) for q in bad_starts)
+    ok = after_result(g, _validator('IsValidKey'), False, resets + dflt)[0] and after_result(g, _validator('IsValidValue'), False, resets + dflt)[0]
     ck.verdict(ok, rule, f, 'FromHeader:invalid-discards-partial', resets[0].n if resets else None, 'an invalid member empties the state' if ok else
                'after an invalid member FromHeader can return the members parsed so far (a partial state)')
 
